@@ -169,6 +169,36 @@ def growth_op(spec, rng):
     return None
 
 
+def hour_crossing_ops(spec, rng):
+    """edits of the time spent in an earlier step that carry a later job of the journey across a whole-hour boundary
+    (a job is placed floor(time elapsed) hours after the journey starts): up from where it is — preferably out of the
+    first hour —, back, and up again.  [] when no journey has a job after its first step."""
+    import math
+    from fractions import Fraction as F
+    cands = []
+    for p in spec["system"]["usage_patterns"]:
+        steps_ = spec["journeys"][spec["patterns"][p]["usage_journey"]]["uj_steps"]
+        if len(set(steps_)) != len(steps_):
+            continue
+        elapsed = F(0)
+        for k_, sn in enumerate(steps_):
+            if k_ >= 1 and spec["steps"][sn]["jobs"]:
+                cands.append((math.floor(elapsed), steps_[:k_]))
+            elapsed += specgen.hours_of(spec["steps"][sn]["user_time_spent"], realsys.unit_info)
+    if not cands:
+        return []
+    cands.sort(key=lambda c: c[0])
+    fl, before = cands[0] if rng.random() < 0.7 else rng.choice(cands)
+    sn = rng.choice(before)
+    old = spec["steps"][sn]["user_time_spent"]
+    h0 = specgen.hours_of(old, realsys.unit_info)
+    up = {"m": round(float(h0 * 60 + 60 * rng.choice([1, 1, 2])), 6), "u": "min"}
+    if not specgen.safe_duration(up, realsys.unit_info) or not specgen.safe_duration(old, realsys.unit_info):
+        return []
+    mk = lambda v: {"op": "setq", "kind": "steps", "name": sn, "param": "user_time_spent", "value": dict(v)}
+    return [mk(up), mk(old), mk(up)]
+
+
 def with_idle_jobs(spec, rng, n=3):
     """(spec with n jobs hosted on a used server but not placed in any step — they contribute no load — and a storage no
     server uses; the op that moves that server to the free storage)"""
@@ -401,6 +431,9 @@ def edit_vs_rebuild_shard(args):
         # every third history starts by taking the jobs out of a usage pattern that has its network to itself, step by
         # step: that network ends up carrying no job at all
         drain = drain_ops(live.spec) if h % 3 == 2 else []
+        # every third history starts by carrying a later job of a journey across a whole-hour boundary, back, and across again
+        if h % 3 == 0 and not (guarded and history.has_shared_job(live.spec)):
+            drain = hour_crossing_ops(live.spec, rng)
         for step in range(n_ops + len(drain)):
             op = drain.pop(0) if drain else None
             if op is None and cornered and step < 2:
@@ -409,6 +442,8 @@ def edit_vs_rebuild_shard(args):
                 op = gen_op(rng, live.spec, guarded)
             if op is None or not safe_after(live, op):
                 continue
+            if op["op"] == "setq" and live.spec_entry(op.get("kind") or history.kind_of(live.spec, op["name"]), op["name"]).get(op["param"]) == op["value"]:
+                continue      # (a scripted edit met after an undo that already restored that value: assigning an equal value is skipped by design)
             before_tot = totals_snapshot(live.rs.system)
             before_obs = live.rs.observe()
             before_spec = copy.deepcopy(live.spec)
